@@ -23,6 +23,7 @@ import (
 	"sort"
 	"strconv"
 	"strings"
+	"sync"
 	"sync/atomic"
 	"time"
 )
@@ -515,6 +516,36 @@ func inOrder(e Ev, gets ...func()) {
 	for _, i := range rand.New(rand.NewSource(int64(key))).Perm(len(gets)) {
 		gets[i]()
 	}
+}
+
+// parSame runs n goroutines, each calling f(k) rounds times, and reports whether every result equalled the one the same
+// call gave when it ran alone (computed first): calls on separate data must not disturb one another when they
+// overlap in time.
+func parSame(n, rounds int, f func(k int) string) bool {
+	alone := make([]string, n)
+	for k := range alone {
+		alone[k] = f(k)
+	}
+	var wg sync.WaitGroup
+	var bad int32
+	for k := 0; k < n; k++ {
+		wg.Add(1)
+		go func(k int) {
+			defer wg.Done()
+			defer func() {
+				if recover() != nil {
+					atomic.StoreInt32(&bad, 1)
+				}
+			}()
+			for i := 0; i < rounds && atomic.LoadInt32(&bad) == 0; i++ {
+				if f(k) != alone[k] {
+					atomic.StoreInt32(&bad, 1)
+				}
+			}
+		}(k)
+	}
+	wg.Wait()
+	return bad == 0
 }
 
 // nilIfEmpty: a zero-length byte argument is handed over as a nil slice for the events whose order key is odd
